@@ -321,7 +321,7 @@ func init() {
 		Jobs: func(tier string, prog *ssa.Program) []*Job {
 			st := hjp("internal/session", "C14.store", "H_C14_store", "store histories")
 			if tier == "thorough" {
-				st = hjp("internal/session", "C14.store", "H_C14_store_deep", "store histories (6 operations)")
+				st = hjp("internal/session", "C14.store", "H_C14_store_deep", "store histories (5 operations)")
 			}
 			idn := 0
 			st.Stubs = map[string]interceptFn{repoModule + "/internal/session.generateSessionID": func(it *Interp, fn *ssa.Function, a []Value) Value {
@@ -399,7 +399,7 @@ func init() {
 			fs := hj("C15.frame-stray", "H_C15_frame_stray", "an arbitrary frame for an unknown key or a late one for the complete file, one preemption at a select")
 			if tier == "thorough" {
 				fr = hj("C15.frame", "H_C15_frame_deep", "one arbitrary frame for the announced file of 0,1,4,5 bytes, chunk size 4 or 0, resume on/off, one preemption of the main loop at a select")
-				fs = hj("C15.frame-stray", "H_C15_frame_stray_resume", "as quick with resume on, files of 1 and 5 bytes")
+				fs = hj("C15.frame-stray", "H_C15_frame_stray_resume", "as quick with resume on")
 			}
 			rs := hj("C15.records", "H_C15_records", "up to 3 well-formed control records in arbitrary order, then the stream ends")
 			if tier == "thorough" {
@@ -610,7 +610,10 @@ func init() {
 			ch.Threads, ch.Workers, ch.MaxPaths, ch.CanonicalBlock = true, 16, 5000000, true
 			ch.TimerBudget = 1
 			ch.Stubs = map[string]interceptFn{repoModule + "/internal/transfer.readAtWithPool": stubReadAtDirect}
-			return []*Job{r, pl, ee, ch}
+			et := hj("C04.endtoend-tail", "H_C04_endtoend_tail", "second run with both real endpoints, two data streams, verification tail 1 (duplicates on the other stream), 9-byte file; canonical schedule")
+			et.Threads, et.Workers, et.MaxPaths, et.TimersNeverFire, et.CanonicalBlock, et.Preempt = true, 16, 5000000, true, true, 0
+			et.Stubs = ee.Stubs
+			return []*Job{r, pl, ee, ch, et}
 		},
 	})
 
